@@ -85,13 +85,25 @@ class Obj:
     """Representative object: fields plus methods (python callables receiving evaluated arguments).
     Compared by identity, like an ordinary instance without __eq__."""
 
-    def __init__(self, label="obj", fields=None, methods=None):
+    def __init__(self, label="obj", fields=None, methods=None, classes=None):
         self.label = label
         self.fields = dict(fields or {})
         self.methods = dict(methods or {})
+        self.classes = list(classes or [label])
 
     def __repr__(self):
         return f"<{self.label}>"
+
+
+class ClassRef:
+    """Reference to a class of the analysed package (used in isinstance tests and for instantiation)."""
+
+    def __init__(self, name, mro):
+        self.name = name
+        self.mro = mro  # [(ClassDef, Module)] most derived first
+
+    def __repr__(self):
+        return f"<class {self.name}>"
 
 
 class Closure:
@@ -179,7 +191,9 @@ class Interp:
     """resolver(dotted name, module) -> (FunctionDef, Module) | None resolves calls into the analysed package.
     identity: names of calls treated as identity on their first argument; sinks: names of calls recorded, not evaluated."""
 
-    def __init__(self, resolver=None, identity=(), sinks=(), max_steps: int = 200000, on_store=None, ctor_prefixes=(), externs=None):
+    def __init__(self, resolver=None, identity=(), sinks=(), max_steps: int = 200000, on_store=None, ctor_prefixes=(), externs=None, class_resolver=None, consts=None):
+        self.class_resolver = class_resolver
+        self.consts = dict(consts or {})
         self.ctor_prefixes = tuple(ctor_prefixes)
         self.externs = dict(externs or {})
         self.resolver = resolver
@@ -202,6 +216,12 @@ class Interp:
                 return env[t]
         if isinstance(e, ast.Constant):
             return e.value
+        if isinstance(e, (ast.Name, ast.Attribute)) and self.consts and t in self.consts:
+            return self.consts[t]
+        if isinstance(e, (ast.Name, ast.Attribute)) and self.class_resolver is not None:
+            mro = self.class_resolver(t, mod)
+            if mro:
+                return ClassRef(t.split(".")[-1], mro)
         if isinstance(e, ast.Name):
             if e.id in CONSTS:
                 return CONSTS[e.id]
@@ -370,6 +390,13 @@ class Interp:
             if isinstance(args[0], Term):
                 names = [str(t).split(".")[-1] for t in (typ if isinstance(typ, tuple) else (typ,)) if isinstance(t, Token)]
                 return args[0].name in names
+            typs = typ if isinstance(typ, tuple) else (typ,)
+            if any(isinstance(t, ClassRef) for t in typs):
+                if isinstance(args[0], Obj):
+                    return any(isinstance(t, ClassRef) and t.name in args[0].classes for t in typs)
+                return any(isinstance(t, type) and isinstance(args[0], t) for t in typs)
+            if isinstance(args[0], Obj):
+                return any(isinstance(t, Token) and str(t).split(".")[-1] in args[0].classes for t in typs)
             if isinstance(typ, Token) or (isinstance(typ, tuple) and any(isinstance(t, Token) for t in typ)):
                 return False
             if isinstance(args[0], Token):
@@ -379,6 +406,10 @@ class Interp:
             return Term(name, args, kwargs)
         if name in self.externs:
             return self.externs[name](*args, **kwargs)
+        if self.class_resolver is not None:
+            mro = self.class_resolver(name, mod)
+            if mro:
+                return self.instantiate(name.split(".")[-1], mro, args, kwargs)
         if isinstance(e.func, ast.Attribute):
             try:
                 recv = self.ev(e.func.value, env, mod)
@@ -387,6 +418,11 @@ class Interp:
             if isinstance(recv, Obj):
                 if e.func.attr in recv.methods:
                     return recv.methods[e.func.attr](*args, **kwargs)
+                f_ = recv.fields.get(e.func.attr)
+                if isinstance(f_, Closure):
+                    return f_.interp.apply(f_, args, kwargs, mod)
+                if callable(f_):
+                    return f_(*args, **kwargs)
                 raise Raises("AttributeError", f"{recv!r}.{e.func.attr}")
             if isinstance(recv, (list, set, dict)) and e.func.attr in ("append", "remove", "clear", "extend", "add", "discard", "pop", "insert", "update", "sort", "reverse", "setdefault"):
                 return _guard(getattr(recv, e.func.attr), *args, **kwargs)
@@ -414,6 +450,26 @@ class Interp:
             if base is not None and not isinstance(base, (Token, Closure)):
                 return _guard(getattr(base, e.func.attr), *args, **kwargs)
         raise Undecided(f"call `{name}`")
+
+    def instantiate(self, name, mro, args, kwargs):
+        obj = Obj(name, classes=[c.name for c, _m in mro])
+        for cdef, cmod in reversed(mro):
+            for st in cdef.body:
+                if isinstance(st, (ast.FunctionDef,)):
+                    obj.methods[st.name] = (lambda fn, fmod: (lambda *a, **k: self.run_function(fn, [obj, *a], k, fmod)))(st, cmod)
+                elif isinstance(st, ast.AnnAssign) and isinstance(st.target, ast.Name) and st.value is not None:
+                    try:
+                        obj.fields[st.target.id] = self.ev(st.value, {}, cmod)
+                    except Undecided:
+                        pass
+        if "__init__" in obj.methods:
+            obj.methods["__init__"](*args, **kwargs)
+        else:
+            names = [st.target.id for cdef, _m in reversed(mro) for st in cdef.body if isinstance(st, ast.AnnAssign) and isinstance(st.target, ast.Name)]
+            for n, a in zip(names, args):
+                obj.fields[n] = a
+            obj.fields.update(kwargs)
+        return obj
 
     def apply(self, clo: Closure, args, kwargs, mod):
         env = dict(clo.env)
@@ -640,6 +696,32 @@ def run_block(stmts, env: dict, on_store=None):
     except Raises as exc:
         return ("raise", exc.name)
     return ("fall", None)
+
+
+def repo_class_resolver(repo, only=None):
+    """Resolve class names of the analysed package to their static MRO [(ClassDef, Module)]."""
+
+    def resolve(name, mod):
+        if mod is None:
+            return None
+        short = name.split(".")[-1]
+        if only is not None and short not in only:
+            return None
+        r = None
+        if name in mod.classes:
+            r = (mod.name, name)
+        else:
+            rr = repo.resolve_name(mod, name)
+            if rr and rr[0] in repo.modules and rr[1] in repo.modules[rr[0]].classes:
+                r = rr
+        if r is None:
+            return None
+        try:
+            return [(repo.modules[m].classes[c], repo.modules[m]) for m, c in repo.mro(*r)]
+        except Exception:  # noqa: BLE001
+            return None
+
+    return resolve
 
 
 def repo_resolver(repo):
